@@ -724,7 +724,51 @@ func scenStaleFork(r *rec, _ int) {
 	}
 }
 
-var scenarios = []string{"sync", "async", "async-restart", "byz", "equivocate", "permute", "latesibling", "boundary", "posweights", "doublevote", "stalefork"}
+// scenStalePack: a node schedules a block on its best, then better blocks arrive, then it packs on the (now stale)
+// flow - packerLoop notices a new best only once per second. The own block must become best only if the fork choice
+// prefers it.
+func scenStalePack(r *rec, blocks int) {
+	n := len(r.net.Nodes)
+	for len(r.order) < blocks {
+		p := r.rng.Intn(n)
+		node := r.net.Nodes[p]
+		flow, err := node.Schedule(0)
+		if err != nil {
+			return
+		}
+		// meanwhile 0..3 blocks by others arrive at p (and everybody else)
+		k := r.rng.Intn(4)
+		for j := 0; j < k; j++ {
+			q := (p + 1 + r.rng.Intn(n-1)) % n
+			if blk := r.propose(q); blk != nil {
+				for i := range r.net.Nodes {
+					if i != q {
+						r.deliverChain(i, blk)
+					}
+				}
+			}
+		}
+		blk, err := node.Pack(flow)
+		if err != nil {
+			r.st.Errors = append(r.st.Errors, fmt.Sprintf("pack n%d: %v", p, err))
+			r.evs = append(r.evs, trace.Ev{"e": "Error", "n": p, "what": "pack", "err": err.Error()})
+			continue
+		}
+		if err := r.net.GodLearn(blk); err != nil {
+			fmt.Println("HARNESS-ERROR godlearn:", err)
+			os.Exit(3)
+		}
+		r.noteBlock(blk)
+		r.commitEv(node, blk, true)
+		for i := range r.net.Nodes {
+			if i != p {
+				r.deliverChain(i, blk)
+			}
+		}
+	}
+}
+
+var scenarios = []string{"sync", "async", "async-restart", "byz", "equivocate", "permute", "latesibling", "boundary", "posweights", "doublevote", "stalefork", "stalepack"}
 
 func runOne(scen string, seed int64, blocks int) ([]trace.Ev, runStat) {
 	rng := rand.New(rand.NewSource(seed))
@@ -761,6 +805,8 @@ func runOne(scen string, seed int64, blocks int) ([]trace.Ev, runStat) {
 		c = config{4, 2, pos, 4}
 	case "stalefork":
 		c = config{4, 2, pos, 3}
+	case "stalepack":
+		c = config{4, 4, pos, epoch}
 	default:
 		panic("unknown scenario " + scen)
 	}
@@ -788,6 +834,8 @@ func runOne(scen string, seed int64, blocks int) ([]trace.Ev, runStat) {
 		scenDoubleVote(r, blocks)
 	case "stalefork":
 		scenStaleFork(r, blocks)
+	case "stalepack":
+		scenStalePack(r, blocks)
 	}
 	evs := r.finish()
 	return evs, r.st
